@@ -1106,6 +1106,35 @@ func (in *Interp) eval(st *State, e ast.Expr) []valState {
 				exprs = append(exprs, el)
 			}
 		}
+		// a literal list of function values is a known list (a table of steps)
+		if t := in.c.typeOf(e); t != nil && len(exprs) > 0 {
+			var elem types.Type
+			switch u := t.Underlying().(type) {
+			case *types.Slice:
+				elem = u.Elem()
+			case *types.Array:
+				elem = u.Elem()
+			}
+			if elem != nil {
+				if _, isFn := elem.Underlying().(*types.Signature); isFn {
+					list := Value{K: vList}
+					cur := st
+					okAll := true
+					for _, x := range exprs {
+						vs := in.eval(cur, x)
+						if len(vs) != 1 || vs[0].v.K != vFunc {
+							okAll = false
+							break
+						}
+						cur = vs[0].st
+						list.Tup = append(list.Tup, vs[0].v)
+					}
+					if okAll {
+						return one(cur, list)
+					}
+				}
+			}
+		}
 		return in.evalForEffects(st, exprs, in.c.typeOf(e))
 	case *ast.KeyValueExpr:
 		return in.eval(st, e.Value)
